@@ -1,7 +1,8 @@
 """Configuration of the check for C02 (loaded by checklib/props.py; COMMON_TRUSTED / MODEL_TRUSTED are in scope)."""
 
 PROP = {'modules': ['AmVerif.Props.C02'],
- 'engines': [{'name': 'cache', 'quick': 150, 'thorough': 5000}, {'name': 'cache', 'tag': 'cache-3cpus', 'quick': 40, 'thorough': 1000, 'cpus': 3}],
+ 'engines': [{'name': 'cache', 'quick': 150, 'thorough': 5000}, {'name': 'cache', 'tag': 'cache-3cpus', 'quick': 40, 'thorough': 1000, 'cpus': 3},
+             {'name': 'conc', 'quick': 6, 'thorough': 60}],
  'rule': 'random operation sequences (5-60 ops) over load / load_owned / get_cached / get_or_insert / contains / remove / take / clear / directory '
          'loads on all front-ends (AssetCache, LocalAssetCache, AnyCache views; with reloader, without_hot_reloading, source without hot-reloading '
          'support), ids drawn 80% from a 7-id tree whose script assets load / look up / load_owned each other (nested, failing, panicking loads), a '
